@@ -66,3 +66,59 @@ class deque:
 
 
 OrderedDict = dict
+
+
+class ChainMap:
+    def __init__(self, *maps):
+        self.maps = list(maps) if maps else [{}]
+
+    def __getitem__(self, key):
+        for mapping in self.maps:
+            if key in mapping:
+                return mapping[key]
+        raise KeyError(key)
+
+    def get(self, key, default=None):
+        for mapping in self.maps:
+            if key in mapping:
+                return mapping[key]
+        return default
+
+    def __contains__(self, key):
+        for mapping in self.maps:
+            if key in mapping:
+                return True
+        return False
+
+    def _keys(self):
+        # iteration order of ChainMap: mappings last to first, a key keeps the position of its first sighting
+        d = {}
+        for mapping in reversed(self.maps):
+            for k in mapping:
+                d[k] = None
+        return list(d)
+
+    def __iter__(self):
+        return iter(self._keys())
+
+    def __len__(self):
+        return len(self._keys())
+
+    def __bool__(self):
+        return len(self._keys()) > 0
+
+    def keys(self):
+        return self._keys()
+
+    def values(self):
+        return [self[k] for k in self._keys()]
+
+    def items(self):
+        return [(k, self[k]) for k in self._keys()]
+
+    def new_child(self, m=None):
+        return ChainMap(m if m is not None else {}, *self.maps)
+
+    @property
+    def parents(self):
+        return ChainMap(*self.maps[1:])
